@@ -134,7 +134,7 @@ def make_B_refusing():
 
 
 def tasks(tier):
-    out = [{"kind": "model-guard", "d1": 0, "d2": 0}]
+    out = [{"kind": "model-guard", "d1": 0, "d2": 0}, {"kind": "same-enum", "d1": 0, "d2": 0}]
     for d1 in range(len(DISTURBERS)):
         for d2 in range(len(DISTURBERS)):
             if tier == "quick" and d1 != 0 and d2 != 0 and d1 != d2 and (d1 + d2) % 3:
@@ -151,11 +151,11 @@ BOUNDS = {
     "quick": "machine A (3 states, guarded + fallback candidates, callbacks taking event arguments positionally and keyword-only) driven by 3 `go` events; before "
     "each of the first two events one disturber out of {none, define an unrelated class with A's qualified class and method names but other signatures, define and "
     "drive it, create and drive a second A (between A's events, and from inside one of A's own callbacks), create siblings with other start_value, define a subclass of A that adds an event on A's states, define a subclass using from_.any(), define a lambda-bearing "
-    "class}; optionally another machine over a model of the same class but other instance-level hooks created first; an instance of A created after all disturbances is checked as well; disturbers also: an unrelated class whose state ids equal A's guard/callback names, a sibling A with a coroutine listener; an unrelated class with A's name and equally declared states that refuses `go` (and an unknown event) in `a` and is driven; a sibling that is sent an event object taken from A's allowed_events; a sample of the 13x13 disturber pairs; a separate scenario: a class whose guard/action names are provided only by the model or a listener - what happens to an instance without a provider (today: InvalidDefinition) is the same whether it is the first instance of the class or follows good (driven) ones - compared with an identical fresh class - and good instances obey their own model's guard; A's trace, states, allowed events, argument binding and result compared with A alone.",
+    "class}; optionally another machine over a model of the same class but other instance-level hooks created first; an instance of A created after all disturbances is checked as well; disturbers also: an unrelated class whose state ids equal A's guard/callback names, a sibling A with a coroutine listener; an unrelated class with A's name and equally declared states that refuses `go` (and an unknown event) in `a` and is driven; a sibling that is sent an event object taken from A's allowed_events; a sample of the 13x13 disturber pairs; a separate scenario: two unrelated classes built with States.from_enum over the same enum (3 definition / instantiation orders, with and without use_enum_instance); another: a class whose guard/action names are provided only by the model or a listener - what happens to an instance without a provider (today: InvalidDefinition) is the same whether it is the first instance of the class or follows good (driven) ones - compared with an identical fresh class - and good instances obey their own model's guard; A's trace, states, allowed events, argument binding and result compared with A alone.",
     "thorough": "all 169 disturber pairs.",
 }
 OUTSIDE = "interleavings across OS threads; more than two disturbers per history; pickling (C17)"
-OBLIGATIONS = ["sibling-sent-event-object", "bad-instance-verdict-stable", "model-guard-decides", "same-names-refusing", "clashing-state-ids", "async-sibling", "driven-inside-callback", "sibling-start-values", "same-names-kwonly-first", "model-of-same-class-before", "undisturbed", "same-names-defined", "second-instance", "subclass-defined", "binding-checked"]
+OBLIGATIONS = ["classes-from-same-enum", "sibling-sent-event-object", "bad-instance-verdict-stable", "model-guard-decides", "same-names-refusing", "clashing-state-ids", "async-sibling", "driven-inside-callback", "sibling-start-values", "same-names-kwonly-first", "model-of-same-class-before", "undisturbed", "same-names-defined", "second-instance", "subclass-defined", "binding-checked"]
 ASSUMPTIONS = [
     "the library's process-wide signature cache is emptied (through its own clear_cache hook, when present) at the start of every path, so that a path is a complete history",
     "A's expected behaviour is a table (A alone); comparing with a re-run would share the caches under test",
@@ -274,7 +274,87 @@ def run_model_guard(ctx, params):
         expect_same("after a rejected and a good instance")
 
 
+def run_same_enum(ctx, params):
+    """Two unrelated classes describe their states with the same enum (same initial / final members): each keeps its
+    own transitions, events and behaviour, whichever is defined or instantiated first."""
+    import enum
+
+    from statemachine import StateMachine
+    from statemachine.states import States
+
+    with ctx.notracing():
+        reset_process_caches()
+        Color = enum.Enum("Color", [("r", 1), ("g", 2), ("b", 3)])
+    use_inst = ctx.choose(2, "use_enum_instance") == 1
+    order = ["E1-E2-i1", "E1-i1-E2", "E2-E1-i1"][ctx.choose(3, "order")]
+
+    def make_E1():
+        class E1(StateMachine):
+            s = States.from_enum(Color, initial=Color.r, final=Color.b, use_enum_instance=use_inst)
+            go = s.r.to(s.g, cond="ok")
+            end = s.g.to(s.b)
+
+            def ok(self):
+                return self.v
+
+        return E1
+
+    def make_E2():
+        class E2(StateMachine):
+            s = States.from_enum(Color, initial=Color.r, final=Color.b, use_enum_instance=use_inst)
+            jump = s.r.to(s.b)
+            hop = s.r.to(s.g)
+            stay = s.g.to.itself()
+            leave = s.g.to(s.b)
+
+        return E2
+
+    e1 = None
+    if order == "E2-E1-i1":
+        E2 = make_E2()
+        E2().send("jump")
+        E1 = make_E1()
+    else:
+        E1 = make_E1()
+        if order == "E1-i1-E2":
+            e1 = E1()
+        E2 = make_E2()
+        e2 = E2()
+        e2.send("jump")
+    if e1 is None:
+        e1 = E1()
+    view = {st.id: sorted((t.target.id, str(t.event)) for t in st.transitions) for st in E1.states}
+    want_view = {"r": [("g", "go")], "g": [("b", "end")], "b": []}
+    if view != want_view or sorted(str(e) for e in E1.events) != ["end", "go"]:
+        raise Mismatch(f"class-definition-changed-by:class-from-same-enum:{order}", f"E1's transitions {view} (expected {want_view}), events {sorted(str(e) for e in E1.events)}")
+    try:
+        allowed = sorted(str(e) for e in e1.allowed_events)
+    except AttributeError as e:
+        raise Mismatch(f"allowed-events-broken-by:class-from-same-enum:{order}", str(e))
+    if allowed != ["go"]:
+        raise Mismatch(f"allowed-events-changed-by:class-from-same-enum:{order}", f"{allowed}")
+    e1.v = ctx.sym_bool("ok")
+    try:
+        e1.send("jump")
+        raise Mismatch(f"foreign-event-accepted:class-from-same-enum:{order}", f"E1 instance accepted E2's event, now in {e1.current_state.id}")
+    except e1.TransitionNotAllowed:
+        pass
+    try:
+        e1.send("go")
+        moved = True
+    except e1.TransitionNotAllowed:
+        moved = False
+    if moved != (True if e1.v else False) or e1.current_state.id != ("g" if e1.v else "r"):
+        raise Mismatch(f"behaviour-changed-by:class-from-same-enum:{order}", f"ok={bool(e1.v)}: moved={moved}, state {e1.current_state.id}")
+    want_val = (Color.g if use_inst else 2) if moved else (Color.r if use_inst else 1)
+    if e1.current_state_value != want_val:
+        raise Mismatch(f"state-value-changed-by:class-from-same-enum:{order}", f"{e1.current_state_value!r}, expected {want_val!r}")
+    ctx.cover("classes-from-same-enum")
+
+
 def run(ctx, params):
+    if params.get("kind") == "same-enum":
+        return run_same_enum(ctx, params)
     if params.get("kind") == "model-guard":
         return run_model_guard(ctx, params)
     with ctx.notracing():
